@@ -15,7 +15,7 @@ BUILTINS = {'len', 'range', 'ord', 'chr', 'int', 'str', 'bool', 'bytes', 'bytear
             'sorted', 'enumerate', 'list', 'tuple', 'dict', 'set', 'any', 'all', 'getattr', 'print', 'repr', 'abs',
             'sum', 'zip', 'hasattr', 'type', 'float', 'bin', 'hex', 'reversed', 'map', 'filter', 'open', 'id',
             'implies', 'iff', 'old', 'True', 'False', 'None', 'object', 'divmod', 'pow', 'round', 'callable',
-            'Exception', 'frozenset', 'iter', 'next', 'super', 'format', 'setattr', 'chr8', 'all_bytes'}
+            'Exception', 'frozenset', 'iter', 'next', 'super', 'format', 'setattr', 'chr8', 'all_bytes', 'ghost'}
 
 MODULE_CONSTS = {
     'sys.maxsize': 2 ** 63 - 1,
@@ -100,6 +100,9 @@ def pyint_str(t):
 
 # ------------------------------------------------------------------------------------------------ binop
 def binop(ip, st, op, a, b):
+    if (isinstance(a, Sym) and is_opt(a.ty)) or (isinstance(b, Sym) and is_opt(b.ty)):
+        from .lib import unwrap_opt
+        a, b = unwrap_opt(ip, st, a), unwrap_opt(ip, st, b)
     if not is_sym(a) and not is_sym(b) and not isinstance(a, Ref) and not isinstance(b, Ref):
         return concrete_binop(ip, st, op, a, b)
     # list operations
@@ -680,6 +683,8 @@ def equals(ip, st, a, b):
 
 
 def contains(ip, st, container, x):
+    if isinstance(container, Builtin) and container.name == 'sys.modules':
+        return False        # posix without optional modules (stated assumption)
     if isinstance(container, (str, bytes)) and isinstance(x, (str, bytes)):
         return x in container
     if isinstance(container, (str, bytes, Sym)) and type_of(container, st) in ('str', 'bytes'):
@@ -804,6 +809,8 @@ def slice_bounds(lo, hi, n, st=None):
 
 def getitem(ip, st, obj, idx):
     from .interp import Raise
+    from .lib import unwrap_opt
+    obj = unwrap_opt(ip, st, obj)
     if isinstance(idx, tuple) and len(idx) == 4 and idx[0] == 'slice':
         _, lo, hi, step = idx
         if step is not None:
